@@ -59,24 +59,41 @@ vars == <<kind, phase, plan, bad, script, wire, wlen, mutated, nmut, sent, piece
 (* ---- the well-formed messages ---- *)
 H(n, o, v) == [name |-> n, ows |-> o, value |-> v]
 Host == H(<<"H", "o", "s", "t">>, <<SP>>, <<"h">>)
+\* requests 1-3: the common shapes; 4-6: well-formed but rare syntax - chunk extensions with and without value (also on
+\* the last chunk) and a trailer, HTTP/1.0 with keep-alive and an upper-case field name, a repeated field in two cases
+E0(n) == [name |-> n, hasval |-> FALSE, val |-> <<>>]
+E1(n, v) == [name |-> n, hasval |-> TRUE, val |-> v]
+KeepAlive == H(<<"C", "o", "n", "n", "e", "c", "t", "i", "o", "n">>, <<SP>>, <<"k", "e", "e", "p", "-", "a", "l", "i", "v", "e">>)
 ReqFam == <<
     [kind |-> "req", start |-> <<<<"G", "E", "T">>, <<"/", "a">>, Http11>>, heads |-> <<Host>>, fows |-> <<SP>>, body |-> [k |-> "none"]],
     [kind |-> "req", start |-> <<<<"P", "O", "S", "T">>, <<"/", "b">>, Http11>>, heads |-> <<Host>>, fows |-> <<SP>>,
      body |-> [k |-> "fixed", data |-> <<"x", "y", "z">>]],
     [kind |-> "req", start |-> <<<<"P", "U", "T">>, <<"/", "c">>, Http11>>, heads |-> <<>>, fows |-> <<SP>>,
      body |-> [k |-> "chunked", chunks |-> <<[data |-> <<"a", "b">>, exts |-> <<>>], [data |-> <<"c">>, exts |-> <<>>]>>,
-               lastexts |-> <<>>, trailers |-> <<H(<<"T">>, <<SP>>, <<"v">>)>>]] >>
+               lastexts |-> <<>>, trailers |-> <<H(<<"T">>, <<SP>>, <<"v">>)>>]],
+    [kind |-> "req", start |-> <<<<"P", "O", "S", "T">>, <<"/", "d">>, Http11>>, heads |-> <<Host>>, fows |-> <<>>,
+     body |-> [k |-> "chunked", chunks |-> <<[data |-> <<"p", "q">>, exts |-> <<E0(<<"e">>)>>],
+                                             [data |-> <<"r">>, exts |-> <<E1(<<"f">>, <<"v">>), E0(<<"g">>)>>]>>,
+               lastexts |-> <<E1(<<"l">>, <<"1">>)>>, trailers |-> <<H(<<"T">>, <<>>, <<"w">>)>>]],
+    [kind |-> "req", start |-> <<<<"G", "E", "T">>, <<"/", "e">>, Http10>>,
+     heads |-> <<H(<<"H", "O", "S", "T">>, <<>>, <<"h">>), KeepAlive>>, fows |-> <<SP>>, body |-> [k |-> "none"]],
+    [kind |-> "req", start |-> <<<<"P", "O", "S", "T">>, <<"/", "f">>, Http11>>,
+     heads |-> <<H(<<"X", "-", "A">>, <<SP>>, <<"1">>), Host, H(<<"x", "-", "a">>, <<HT>>, <<"2">>)>>, fows |-> <<SP, SP>>,
+     body |-> [k |-> "fixed", data |-> <<"u">>]] >>
 Ok == <<Http11, <<"2", "0", "0">>, <<"O", "K">> >>
 RespFam == <<
     [kind |-> "resp", start |-> Ok, heads |-> <<>>, fows |-> <<SP>>, body |-> [k |-> "fixed", data |-> <<"o", "k">>]],
     [kind |-> "resp", start |-> Ok, heads |-> <<H(<<"A">>, <<SP>>, <<"b">>)>>, fows |-> <<SP>>,
      body |-> [k |-> "chunked", chunks |-> <<[data |-> <<"a", "b">>, exts |-> <<>>], [data |-> <<"c">>, exts |-> <<>>]>>,
                lastexts |-> <<>>, trailers |-> <<>>]],
-    [kind |-> "resp", start |-> Ok, heads |-> <<H(<<"A">>, <<SP>>, <<"b">>)>>, fows |-> <<>>, body |-> [k |-> "close", data |-> <<"x", "y">>]] >>
+    [kind |-> "resp", start |-> Ok, heads |-> <<H(<<"A">>, <<SP>>, <<"b">>)>>, fows |-> <<>>, body |-> [k |-> "close", data |-> <<"x", "y">>]],
+    [kind |-> "resp", start |-> Ok, heads |-> <<H(<<"A">>, <<>>, <<"b">>), H(<<"a">>, <<SP>>, <<"c">>)>>, fows |-> <<>>,
+     body |-> [k |-> "chunked", chunks |-> <<[data |-> <<"p">>, exts |-> <<E0(<<"e">>)>>], [data |-> <<"q", "r">>, exts |-> <<E1(<<"f">>, <<"v">>)>>]>>,
+               lastexts |-> <<E0(<<"l">>)>>, trailers |-> <<H(<<"T">>, <<SP>>, <<"v">>)>>]] >>
 Fam(kd) == IF kd = "server" THEN ReqFam ELSE RespFam
 
-ServerScripts == IF Level = 1 THEN {<<1>>, <<2, 3>>} ELSE {<<1>>, <<2>>, <<3>>, <<1, 2>>, <<2, 3>>, <<3, 1>>}
-ClientScripts == {<<1>>, <<2>>, <<1, 2>>, <<2, 1>>, <<3>>}      \* a body that runs until close comes last
+ServerScripts == IF Level = 1 THEN {<<1>>, <<2, 3>>} ELSE {<<1>>, <<2>>, <<3>>, <<4>>, <<5>>, <<6>>, <<1, 2>>, <<2, 3>>, <<3, 1>>, <<4, 5>>, <<6, 4>>, <<5, 6>>}
+ClientScripts == {<<1>>, <<2>>, <<4>>, <<1, 2>>, <<2, 1>>, <<4, 1>>, <<2, 4>>, <<3>>}      \* a body that runs until close comes last
 
 WireOf(kd, s) == Cat([j \in 1..Len(s) |-> Wire(Fam(kd)[s[j]])])
 \* offset of the end of the jth message of an untampered connection (tabulated once)
@@ -87,13 +104,13 @@ EndOf(kd, s, j) == EndTab[kd][s][j]
 
 (* ---- tampering with the first message of a connection, by structure ---- *)
 BadVersion == <<"H", "T", "T", "X", "/", "1", ".", "1">>
-MutKinds == {"method", "version", "nospace", "nostart", "target", "status", "nocolon",
+MutKinds == {"method", "version", "nospace", "nostart", "target", "status", "nocolon", "obsfold",
              "lennonnum", "lenneg", "lenmore", "lenless", "sizebad", "sizeempty", "termwrong", "termmiss", "trailerbad"}
 Applicable(m, mu) ==
     CASE mu \in {"method", "target"} -> m.kind = "req"
       [] mu = "status" -> m.kind = "resp"
       [] mu \in {"version", "nospace", "nostart"} -> TRUE
-      [] mu = "nocolon" -> AllHeads(m) # <<>>
+      [] mu \in {"nocolon", "obsfold"} -> AllHeads(m) # <<>>
       [] mu \in {"lennonnum", "lenneg", "lenmore", "lenless"} -> m.body.k = "fixed"
       [] mu \in {"sizebad", "sizeempty", "termwrong", "termmiss", "trailerbad"} -> m.body.k = "chunked"
 
@@ -110,6 +127,8 @@ NoColon(h) == h.name \o h.ows \o h.value \o CRLF
 LenHeader(m, v) == <<[name |-> ContentLength, ows |-> m.fows, value |-> v]>>
 XHeads(m, mu) ==
     CASE mu = "nocolon" -> NoColon(AllHeads(m)[1]) \o HLines(Tail(AllHeads(m)))
+      \* the first field continued on a second line (obsolete line folding, RFC 7230 3.2.4: may be rejected)
+      [] mu = "obsfold" -> AllHeads(m)[1].name \o <<":", SP, "a">> \o CRLF \o <<SP>> \o AllHeads(m)[1].value \o CRLF \o HLines(Tail(AllHeads(m)))
       [] mu = "lennonnum" -> HLines(m.heads \o LenHeader(m, <<"x">>))
       [] mu = "lenneg" -> HLines(m.heads \o LenHeader(m, <<"-", "1">>))
       [] mu = "lenmore" -> HLines(m.heads \o LenHeader(m, Dec(Len(m.body.data) + 2)))
